@@ -24,9 +24,9 @@ Definition gate_step (b : bundle) (st : gate_state) (g : gate) : gate_state :=
 Definition run_gates (gates : list gate) (a : agent) (b : bundle) : gate_state :=
   fold_left (gate_step b) gates (true, a, false).
 
-(** The gates of the source, in source order, admit exactly the bundles the model accepts, leave the agent
+(** The gates of the source, in source order, let through exactly the bundles the model accepts, leave the agent
     untouched when they reject (in particular: a bundle failing the CRC gate is NOT recorded as seen), and
-    record identity and 'receive' when they admit. *)
+    record identity and 'receive' when they let it through. *)
 Lemma gates_match_model (a : agent) (b : bundle) :
   let '(ok, a', rcv) := run_gates recv_gates a b in
   ok = accepted a b
